@@ -161,6 +161,15 @@ theorem end_step {cfg : Cfg} {s s' : State} {l : Label} {o : Out}
       obtain ⟨_, a, b⟩ := dropTxChan_facts s.tx s.ch
       exact frame rfl rfl rfl (fun _ hdata => ⟨a, by rw [b]; exact hdata⟩)
     · cases hs
+  | moveTx =>
+    simp only [stepOut] at hs
+    split at hs
+    · split at hs
+      · simp only [Option.some.injEq, Prod.mk.injEq] at hs; obtain ⟨_, rfl⟩ := hs
+        exact h
+      · simp only [Option.some.injEq, Prod.mk.injEq] at hs; obtain ⟨_, rfl⟩ := hs
+        exact frame rfl rfl rfl (fun _ b => ⟨closeData_dataEnd_ne_open s.ch, by simpa using b⟩)
+    · cases hs
   | read n seg =>
     simp only [stepOut] at hs
     split at hs
